@@ -332,6 +332,15 @@ def run_iterfault(chk, spec):
 			f"{spec!r}: raised {o!r}; before {short(before, 160)} after {short(after, 160)}")
 
 
+def _as(seq, how):
+	"""the same values as another plain sequence: a tuple, or one of the library's own vectors (only where building it converts nothing)"""
+	if how == "tuple":
+		return tuple(seq)
+	if how == "vector" and seq and len({type(x) for x in seq}) == 1 and seq[0] is not None:
+		return Vector(list(seq))
+	return seq
+
+
 def run_table_assign(chk, spec):
 	ts = spec["table"]
 	t = common.mk_table(ts)
@@ -385,20 +394,20 @@ def run_table_assign(chk, spec):
 		value = payload
 		percol = {c: ("scalar", payload) for c in cidx}
 	elif vform == "row":
-		value = list(payload)
+		value = _as(list(payload), spec.get("as"))
 		percol = {c: ("scalar", payload[k]) for k, c in enumerate(cidx)} if len(payload) == len(cidx) else None
 	elif vform == "column":
-		value = list(payload)
+		value = _as(list(payload), spec.get("as"))
 		percol = {cidx[0]: ("seq", list(payload))} if len(cidx) == 1 else None
 	elif vform in ("cols-list", "cols-table"):
-		value = [list(c) for c in payload] if vform == "cols-list" else Table([Vector(list(c)) for c in payload])
+		value = [_as(list(c), spec.get("as")) for c in payload] if vform == "cols-list" else Table([Vector(list(c)) for c in payload])
 		percol = {c: ("seq", list(payload[k])) for k, c in enumerate(cidx)} if len(payload) == len(cidx) else None
 	else:
 		raise ValueError(vform)
 	key = rowkey if colkey is None else (rowkey, colkey)
 	o = call(t.__setitem__, key, value)
 	after = [snapshot(c) for c in t.cols()]
-	chk.judged("table-assign", ("tassign", "int-row" if isinstance(rk, int) else "slice-row", ck[0], vform, spec.get("fault"), len(cols), n))
+	chk.judged("table-assign", ("tassign", "int-row" if isinstance(rk, int) else "slice-row", ck[0], vform, spec.get("as"), spec.get("fault"), len(cols), n))
 	# non-addressed columns never change
 	for c in range(len(cols)):
 		if c not in cidx and after[c] != before[c]:
@@ -485,6 +494,52 @@ def run_rename(chk, spec):
 			if not g.ok or g.value is not t.cols()[i]:
 				chk.fail("renamed columns are reachable under the new name", "rename/new-name-not-resolvable", f"{spec!r}: t[{nm!r}] -> {g!r}")
 				return
+
+class _BadStr:
+	"""a (non-string) column label whose text cannot be produced"""
+	def __str__(self):
+		raise Boom("label has no text")
+	__repr__ = object.__repr__
+
+
+def run_rename_fault(chk, spec):
+	# a rename_columns that fails at ANY point - here: after the dry run, while the accessor map is rebuilt for the new names -
+	# leaves every column name (and every accessor) as it was
+	import warnings
+	names = list(spec["names"])
+	t = Table([Vector([1, 2], name=nm) if nm is not None else Vector([1, 2]) for nm in names])
+	fault = spec["fault"]
+	olds, news = list(spec["olds"]), list(spec["news"])
+	if fault == "new-name-text-raises":
+		news[spec["pos"]] = _BadStr()
+	before_ids = [c._name for c in t.cols()]
+	with warnings.catch_warnings():
+		if fault == "warnings-as-errors-duplicate":
+			# a column renamed through a view to a name the table already has (allowed; announced by a UserWarning when the
+			# accessors are next worked out); with warnings turned into errors that announcement makes rename_columns fail
+			warnings.simplefilter("ignore")
+			t.cols()[spec["viewcol"]].name = spec["dup"]
+			before_ids = [c._name for c in t.cols()]
+			warnings.simplefilter("error")
+		else:
+			warnings.simplefilter("ignore")
+		o = call(t.rename_columns, olds, news)
+	after = [c._name for c in t.cols()]
+	chk.judged("rename", ("rename-fault", len(names), len(olds), fault, spec.get("pos")))
+	if o.ok:
+		chk.skip("rename-fault-did-not-fail")
+		return
+	if len(after) != len(before_ids) or any(a is not b for a, b in zip(after, before_ids)):
+		chk.fail("a failed rename_columns leaves every column name", f"rename/not-atomic/{fault}", f"{spec!r}: raised {o!r}; names {before_ids!r} -> {after!r}")
+		return
+	with warnings.catch_warnings():
+		warnings.simplefilter("ignore")
+		for i, nm in enumerate(after):
+			if isinstance(nm, str) and after.count(nm) == 1:
+				g = call(lambda: t[nm])
+				if not g.ok or g.value is not t.cols()[i]:
+					chk.fail("after a failed rename_columns every column is reachable under its (unchanged) name", f"rename/not-atomic/accessor/{fault}", f"{spec!r}: t[{nm!r}] -> {g!r}")
+					return
 
 
 def run_sequence(chk, spec):
@@ -755,7 +810,7 @@ def run_mask_reuse(chk, spec):
 			return
 
 
-RUNNERS = {"cross_kind_equal": run_cross_kind_equal, "mask_reuse": run_mask_reuse, "own_source": run_own_source, "badmask": run_badmask, "selfmask": run_selfmask, "sequence": run_sequence, "overflow": run_overflow, "assign": run_assign, "iterfault": run_iterfault, "table_assign": run_table_assign, "rename": run_rename}
+RUNNERS = {"cross_kind_equal": run_cross_kind_equal, "mask_reuse": run_mask_reuse, "own_source": run_own_source, "badmask": run_badmask, "selfmask": run_selfmask, "sequence": run_sequence, "overflow": run_overflow, "assign": run_assign, "iterfault": run_iterfault, "table_assign": run_table_assign, "rename": run_rename, "rename_fault": run_rename_fault}
 
 COLKINDS = ["bool", "int", "float", "complex", "str", "date", "datetime", "object", "bytes"]
 
@@ -1080,6 +1135,8 @@ def run(chk):
 			# wrong number of rows per column: the per-column model decides (length mismatch), not the shape rule
 			pass
 		spec_t = {"table": ts, "rows": rows, "colspec": colspec, "vform": vform, "value": value, "fault": fault}
+		if vform in ("row", "column", "cols-list"):
+			spec_t["as"] = rng.choice(["list", "list", "tuple", "vector"])
 		if ncols >= 2 and colspec[0] == "name" and rng.random() < 0.6:
 			a, b = names[0], names[1]
 			spec_t["prerename"] = rng.choice([
@@ -1106,3 +1163,9 @@ def run(chk):
 			chk.case("rename", {"names": names, "olds": [real[0], real[1]], "news": [real[1], real[0]], "fault": "swap"}, "rename")
 			chk.case("rename", {"names": names, "olds": [real[0], "renamed-once"], "news": ["renamed-once", "renamed-twice"], "fault": "chain"}, "rename")
 			chk.case("rename", {"names": names, "olds": [real[0], real[0]], "news": ["p", "q"], "fault": "same-old-twice"}, "rename")
+		for k in range(1, min(3, len(real)) + 1):
+			for pos in range(k):
+				chk.case("rename_fault", {"names": names, "olds": real[:k], "news": [f"n{j}" for j in range(k)], "fault": "new-name-text-raises", "pos": pos}, "rename")
+		if len(names) >= 3 and names[0] is not None and names[-1] is not None and names[0] != names[-1]:
+			for k in (1, 2):
+				chk.case("rename_fault", {"names": names, "olds": [names[-1], "z1"][:k], "news": ["z1", "z2"][:k], "fault": "warnings-as-errors-duplicate", "viewcol": 1, "dup": names[0]}, "rename")
